@@ -70,6 +70,16 @@ def run(req):
     if gen is None:
         return {'reproduced': None, 'conclusive': False, 'detail': f'no input generator for {key}', 'tried': 0}
     tried = admissible = 0
+    distinct, samples = set(), []
+
+    def note_case(desc):
+        try:
+            h = json.dumps(desc, sort_keys=True, default=repr)
+        except Exception:      # noqa
+            h = repr(desc)
+        if h not in distinct and len(samples) < 3:
+            samples.append(desc)
+        distinct.add(h)
     want = req.get('obligation', '').split('/', 1)[-1]
     first_other = None
     last_why = ''
@@ -87,6 +97,7 @@ def run(req):
                 last_why = res['why']
                 continue
             admissible += 1
+            note_case({'scenario': case.note})
             if res['status'] == 'violation':
                 return {'reproduced': True, 'conclusive': True, 'clause': res['clause'], 'detail': res['detail'][:800],
                         'input': res['input'], 'tried': tried, 'admissible': admissible}
@@ -97,6 +108,7 @@ def run(req):
             last_why = rc.why
             continue
         admissible += 1
+        note_case(case.describe())
         try:
             rc.check_call(case.fn, case.params, case.args, case.kwargs)
         except rtcontract.ContractViolation as v:
@@ -109,6 +121,7 @@ def run(req):
                     + traceback.format_exc()[-1500:],
                     'tried': tried}
     return {'reproduced': False, 'conclusive': False, 'tried': tried, 'admissible': admissible,
+            'distinct': len(distinct), 'samples': samples,
             'detail': f'no failing input among {admissible} admissible inputs' + (f' (last rejection: {last_why})' if not admissible else '')}
 
 
